@@ -1014,15 +1014,20 @@ func (pid *grainPID) passivationTry(reason string) bool {
 		return false
 	}
 
-	// A reentrancy-capable grain serializes the deactivation decision with its
-	// turn: deciding here, on the manager goroutine, is check-then-act against
-	// a concurrently running turn that can register a request after the check.
-	// The pill travels through the mailbox so the decision and request
-	// registration execute on the same serialized turn stream.
-	if pid.reentrancy.Load() != nil {
+	// The deactivation decision is serialized with the grain's turn: deciding
+	// here, on the manager goroutine, is check-then-act against a concurrently
+	// running turn - OnDeactivate ran while OnReceive was still in progress on a
+	// worker, or a second time next to a PoisonPill handled on the turn, and a
+	// reentrancy-capable grain could register a request after the check. The
+	// pill travels through the mailbox so the decision executes on the same
+	// serialized turn stream as every message; handlePassivationPill re-checks
+	// every condition against the state it finds there.
+	if pid.mailbox != nil {
 		return pid.enqueuePassivationPill()
 	}
 
+	// only a grainPID that is not wired to a mailbox (built as a struct literal
+	// in tests) has no turn to serialise with and deactivates right here
 	if pid.logger.Enabled(log.DebugLevel) {
 		pid.logger.Debugf("grain=%s reason=%s passivation triggered", pid.identity.String(), reason)
 	}
